@@ -22,8 +22,8 @@ PROFILE = scenario.profile(
     maxD=3,
     allow_mixed_unbounded=True,  # bounded and unbounded variables in one problem (valid since the per-variable half-bounds fix)
     c_classes=("inside", "hardbox", "on_bound", "on_bound", "outside", "outside", "far"),
-    x0_classes=("interior", "on_lb", "on_ub", "near", "near", "at_plb", "at_pub", "out_plausible"),
-    coord_classes=("linear", "tight", "log", "log", "posnolog", "unbounded"),
+    x0_classes=("interior", "on_lb", "on_ub", "near", "near", "near2", "near2", "near2", "at_plb", "at_pub", "out_plausible"),
+    coord_classes=("linear", "tight", "log", "log", "log", "posnolog", "unbounded"),
     extra_budget=(0, 50),
 )
 PROFILE_T = dict(PROFILE, maxD=6, extra_budget=(0, 150))
